@@ -831,7 +831,7 @@ pub fn gen_case(p: &mut Prng) -> Case {
                 }
                 if special < 16 && special >= 14 {
                     // far in the future (never fires here) or beyond chrono's date range (the session thread panics)
-                    let delay = p.pick(&["8e15ms", "92000000000d", "9223372036854775807ms", "1e17ms", "99999999999d", "8.4e15ms", "2333333333333h"]).to_string();
+                    let delay = p.pick(&["8e15ms", "92000000d", "9223372036854775807ms", "1e17ms", "99999999999d", "8.4e15ms", "2333333333333h"]).to_string();
                     ss.push(SendSpec { k, id: if p.chance(1, 2) { Some("A".to_string()) } else { None }, delay, expr: true, to_self: false, var: true, loc: false });
                     k += 1;
                     continue;
@@ -1357,7 +1357,18 @@ fn judge(p: &Prepared, out: &Outcome, model: &mut Model, rep: &mut Report) {
     rep.sample(json!({"case": cj, "script": p.script, "observed": format!("{:?}", impl_seq), "attempts": out.attempts}));
 }
 
-fn prepare(origin: String, case: Case, model: &mut Model) -> Prepared {
+fn prepare(origin: String, mut case: Case, model: &mut Model) -> Prepared {
+    // a session that panics in a block never reads its own external queue again: what it sends to
+    // itself in that block is handed over (as the model says) but cannot be observed — retarget it
+    for o in case.ops.iter_mut() {
+        if let OpKind::Send(ss) = &mut o.kind {
+            if ss.iter().any(|q| model_dur(model, &q.delay).0 >= CRASH_MS) {
+                for q in ss.iter_mut() {
+                    q.to_self = false;
+                }
+            }
+        }
+    }
     let (script, delays) = model_script(&case, model);
     let predicted = model_run(model, &script);
     Prepared { origin, case, script, delays, predicted }
